@@ -44,6 +44,7 @@ class Op:
         self.post = ch.bool()
         self.inc = ch.bool()
         self.fetch = ch.choice(['add', 'sub', 'or', 'xor', 'and'] if T != 'ptr' else ['add', 'sub'])
+        self.fp_arg = ch.int(0, 3) == 0
 
     # ---- C text
     def ctype(self):
@@ -88,6 +89,8 @@ class Op:
             return 'res[0] = %s;' % self.cvt(('%s%s' % (x, o)) if self.post else ('%s%s' % (o, x)))
         if k == 'fetch':
             arg = str(self.v) if self.T == 'ptr' else self.lit(self.v)
+            if self.T not in ('ptr', 'double', 'float') and getattr(self, 'fp_arg', False) and 0 <= self.v < 100:
+                arg = '%d.75' % self.v        # the operand is converted to the type of the object (7.17.7.5): truncated
             return 'res[0] = %s;' % self.cvt('atomic_fetch_%s(&%s, %s)' % (self.fetch, x, arg))       # the value before the update (7.17.7.5)
         if k == 'exchange':
             return 'res[0] = %s;' % self.cvt('atomic_exchange(&%s, %s)' % (x, self.lit(self.v)))
